@@ -161,8 +161,15 @@ def run(ctx, jobs=None):
         json.dump(data, fh)
     os.replace(tmp, cpath)
     # keep the cache small
-    files = sorted((os.path.join(cdir, f) for f in os.listdir(cdir)), key=os.path.getmtime)
+    def mt(f):
+        try:
+            return os.path.getmtime(f)
+        except OSError:
+            return 0
+    files = sorted((os.path.join(cdir, f) for f in os.listdir(cdir)), key=mt)
     for old in files[:-12]:
+        if time.time() - mt(old) < 3600:
+            continue
         try:
             os.unlink(old)
         except OSError:
